@@ -16,7 +16,7 @@ ASSUMPTIONS = [
     "pre-state = any flag pattern (enumerated) with known rows L=U=value and unknown rows arbitrary; one public operation is applied "
     "and the whole table is compared with a reference map written from the property text (inductive step over histories)",
 ]
-OUTSIDE = ["n>=5", "flag patterns not listed at n=4", "subset arguments of more than 2 coalitions (plus 'all')", "NaN/inf operands"]
+OUTSIDE = ["n>=5", "flag patterns not listed at n=4", "subset arguments of more than 3 coalitions (plus 'all'); list arguments are exercised in ascending AND non-ascending order", "NaN/inf operands"]
 STUBS = ["np proxy", "SymArray"]
 OPS = ["set_value", "unset_value", "reveal_value", "unreveal_value", "set_values_all", "set_values_subset",
        "set_known_values", "set_lower_bounds", "set_upper_bounds", "set_bound_scalar", "copy", "neg", "add", "getters"]
@@ -106,12 +106,16 @@ def _arr(pk, vals):
 
 
 def _subsets(n):
+    """Coalition-list arguments: singletons, pairs in BOTH orders, and unsorted triples (list order must be respected)."""
     ids = list(range(2 ** n))
-    subs = [[S] for S in ids] + [list(c) for c in itertools.combinations(ids, 2)]
-    if len(subs) > 40:
-        rnd = random.Random(n)
-        subs = [[S] for S in ids] + rnd.sample([list(c) for c in itertools.combinations(ids, 2)], 24)
-    return subs
+    pairs = [list(c) for c in itertools.permutations(ids, 2)]
+    triples = [list(c) for c in itertools.permutations(ids, 3) if not (c[0] < c[1] < c[2])]
+    rnd = random.Random(n)
+    if len(pairs) > 30:
+        pairs = rnd.sample(pairs, 30)
+    if len(triples) > 10:
+        triples = rnd.sample(triples, 10)
+    return [[S] for S in ids] + pairs + triples
 
 
 def instances(params):
